@@ -319,6 +319,9 @@ class Inliner:
                 from .normalize import fold_tuple_locals
 
                 fold_tuple_locals(node)
+                from .normalize import ssa_straightline
+
+                ssa_straightline(node)
             if fmt or changed:
                 changed |= desugar_tables(node, f.module.top)  # before scalar replacement: the rows may be private records
                 changed |= scalar_replace(node, f.module)
